@@ -1,7 +1,154 @@
-(* family 7: stub, to be filled *)
+(* family 7: request ID, PacketFieldEnum, FailureNotice, VerificationParams, Service1Tm *)
 From Coq Require Import ZArith List Bool.
-From SP Require Import Base.Result Base.Bytes Run.Marshal.
+From SP Require Import Base.Result Base.Bytes Run.Marshal Run.DispSph Run.DispTc Run.DispTm
+  Model.SpacePacket Model.PusTc Model.PusTm Model.ReqId Model.Fields Model.Srv1
+  Spec.SpacePacketSpec Spec.Srv1Spec.
 Import ListNotations.
 Open Scope Z_scope.
 
-Definition run_srv1 (op : Z) (a : args) : args := [[1; 97]].
+(* request ID on a case line: [ver; ptype; shf; apid; flags; count]; the adapter builds
+   PacketId, then PacketSeqCtrl, then RequestId *)
+Definition reqid_of_args (l : list Z) : res reqid :=
+  do p <- pid_new (nth 1 l 0) (nth 2 l 0) (nth 3 l 0);
+  do s <- psc_new (nth 4 l 0) (nth 5 l 0);
+  Ok {| rq_pid := p; rq_psc := s; rq_ver := nth 0 l 0 |}.
+Definition reqid_fields (r : reqid) : list Z :=
+  [rq_ver r; pid_ptype (rq_pid r); pid_shf (rq_pid r); pid_apid (rq_pid r);
+   psc_flags (rq_psc r); psc_count (rq_psc r)].
+Definition sph_of_reqid_fields (l : list Z) : sph :=
+  {| ver := nth 0 l 0; ptype := nth 1 l 0; shf := nth 2 l 0; apid := nth 3 l 0;
+     sflags := nth 4 l 0; scount := nth 5 l 0; dlen := 0 |}.
+
+(* optional PacketFieldEnum: [0] or [1; pfc; val] *)
+Definition opt_pfe_of (l : list Z) : res (option pfe) :=
+  match l with
+  | 1 :: pfc :: val :: _ => do f <- pfe_new pfc val; Ok (Some f)
+  | _ => Ok None
+  end.
+Definition of_opt_pfe (o : option pfe) : list Z :=
+  match o with None => [0] | Some f => [1; pfe_pfc f; pfe_val f] end.
+Definition opt_fn_of (code data : list Z) : res (option fnotice) :=
+  do c <- opt_pfe_of code;
+  Ok (match c with None => None | Some c => Some {| fn_code := c; fn_data := data |} end).
+
+(* [reqid] [step] [fn code] [fn data] starting at argument position i *)
+Definition vp_of_args (i : nat) (a : args) : res vparams :=
+  do r <- reqid_of_args (lst i a);
+  do s <- opt_pfe_of (lst (i + 1) a);
+  do f <- opt_fn_of (lst (i + 2) a) (lst (i + 3) a);
+  Ok {| vp_req := r; vp_step := s; vp_fn := f |}.
+
+Definition vp_fields (v : vparams) : args :=
+  [ reqid_fields (vp_req v); of_opt_pfe (vp_step v);
+    of_opt_pfe (match vp_fn v with None => None | Some f => Some (fn_code f) end);
+    of_opt_bytes (match vp_fn v with None => None | Some f => Some (fn_data f) end) ].
+Definition srv1_fields (s : srv1) : args := tm_fields (s1_tm s) ++ vp_fields (s1_vp s).
+
+(* a0 = [apid; subservice; seq; version; ref; dest; has_vp], a1 = timestamp, a2.. = vp *)
+Definition srv1_of_args (a : args) : res srv1 :=
+  do vp <- (if int 0 6 a =? 0 then Ok None else do v <- vp_of_args 2 a; Ok (Some v));
+  srv1_new (int 0 0 a) (int 0 1 a) (lst 1 a) vp (int 0 2 a) (int 0 3 a) (int 0 4 a) (int 0 5 a).
+
+Definition params_of (l : list Z) : unpack_params :=
+  {| up_ts_len := nth 0 l 0; up_step := nth 1 l 0; up_err := nth 2 l 0 |}.
+
+Definition opt_pair (l : list Z) : option (Z * Z) :=
+  match l with 1 :: w :: v :: _ => Some (w, v) | _ => None end.
+Definition opt_fail (l d : list Z) : option (Z * Z * bytes) :=
+  match l with 1 :: w :: c :: _ => Some (w, c, d) | _ => None end.
+
+Definition run_srv1 (op : Z) (a : args) : args :=
+  match op with
+  (* ---- RequestId ---- *)
+  | 700 => ret (fun b => [b]) (do r <- reqid_of_args (lst 0 a); reqid_pack r)
+  | 701 => ret (fun r => [[reqid_as_u32 r; reqid_hash r]]) (reqid_of_args (lst 0 a))
+  | 702 => ret (fun r => [reqid_fields r]) (reqid_unpack (lst 0 a))
+  | 703 => ret (fun r => [fst r; [snd r]])
+             (do r <- reqid_unpack (lst 0 a); do b <- reqid_pack r; Ok (b, reqid_as_u32 r))
+  | 704 => ret (fun r => [reqid_fields (fst r); fst (snd r); [snd (snd r)]])
+             (do h <- sph_of_args (lst 0 a);
+              let r := reqid_from_sph h in
+              do b <- reqid_pack r; Ok (r, (b, reqid_as_u32 r)))
+  | 705 => ret (fun r => [[b2z (fst r); b2z (snd r)]])
+             (do x <- reqid_of_args (lst 0 a); do y <- reqid_of_args (lst 1 a);
+              Ok (reqid_eqb x y, reqid_hash x =? reqid_hash y))
+  | 706 => ret (fun r => [reqid_fields (fst r); snd r])
+             (do t <- tc_of_args a;
+              let r := reqid_from_sph (tc_sph t) in
+              do b <- reqid_pack r; Ok (r, b))
+  (* ---- PacketFieldEnum ---- *)
+  | 710 => ret (fun r => [[pfe_pfc (fst r); pfe_val (fst r); snd r]])
+             (do f <- pfe_new (int 0 0 a) (int 0 1 a); do n <- pfe_len f; Ok (f, n))
+  | 711 => ret (fun b => [b]) (do f <- pfe_new (int 0 0 a) (int 0 1 a); pfe_pack f)
+  | 712 => ret (fun f => [[pfe_pfc f; pfe_val f]]) (pfe_unpack (lst 0 a) (int 1 0 a))
+  | 713 => ret (fun n => [[n]]) (check_pfc (int 0 0 a))
+  | 714 => ret (fun r => [fst r; [snd r]])
+             (do f <- pfe_with_byte_size (int 0 0 a) (int 0 1 a);
+              do b <- pfe_pack f; do n <- pfe_len f; Ok (b, n))
+  | 715 => ret (fun b => [[b2z b]])
+             (do x <- pfe_new (int 0 0 a) (int 0 1 a); do y <- pfe_new (int 0 2 a) (int 0 3 a);
+              Ok (pfe_eqb x y))
+  | 716 => ret (fun b => [b]) (do f <- pfe_unpack (lst 0 a) (int 1 0 a); pfe_pack f)
+  (* PacketFieldU8 / U16 / U32 (val): a0 = [1|2|4; val] *)
+  | 717 => ret (fun r => [fst r; [snd r]])
+             (do f <- pfe_new (int 0 0 a * 8) (int 0 1 a);
+              do b <- pfe_pack f; do n <- pfe_len f; Ok (b, n))
+  (* ---- FailureNotice ---- *)
+  | 720 => ret (fun r => [fst r; [snd r]])
+             (do c <- pfe_new (int 0 0 a) (int 0 1 a);
+              let f := {| fn_code := c; fn_data := lst 1 a |} in
+              do b <- fn_pack f; do n <- fn_len f; Ok (b, n))
+  | 721 => ret (fun f => [[pfe_pfc (fn_code f); pfe_val (fn_code f)]; fn_data f])
+             (fn_unpack (lst 0 a) (int 1 0 a)
+                        (if int 2 0 a =? 0 then None else Some (int 2 1 a)))
+  (* pack -> unpack(width = a2, data length = rest) -> equality with the original (both ways) *)
+  | 722 => ret (fun r => [[b2z (fst r)]; [pfe_pfc (fn_code (snd r)); pfe_val (fn_code (snd r))]; fn_data (snd r)])
+             (do c <- pfe_new (int 0 0 a) (int 0 1 a);
+              let f := {| fn_code := c; fn_data := lst 1 a |} in
+              do b <- fn_pack f;
+              do g <- fn_unpack b (int 2 0 a) None;
+              Ok (fn_eqb g f && fn_eqb f g, g))
+  (* ---- VerificationParams ---- *)
+  | 730 => ret (fun _ => [[0]]) (do v <- vp_of_args 0 a; vp_verify v (int 4 0 a))
+  | 731 => ret (fun r => [fst r; [snd r]])
+             (do v <- vp_of_args 0 a; do b <- vp_pack v; do n <- vp_len v; Ok (b, n))
+  (* == of two VerificationParams objects: a0..a3 and a4..a7 *)
+  | 732 => ret (fun b => [[b2z b]]) (do x <- vp_of_args 0 a; do y <- vp_of_args 4 a; vp_eq x y)
+  (* ---- Service1Tm ---- *)
+  | 740 => ret srv1_fields (srv1_of_args a)
+  | 741 => ret (fun r => [fst r; [tm_packet_len (s1_tm (snd r))]] ++ vp_fields (s1_vp (snd r)))
+             (do s <- srv1_of_args a; srv1_pack s)
+  | 742 => ret (fun r => [[b2z (fst (fst r))]; snd (fst r)] ++ srv1_fields (snd r))
+             (do s <- srv1_of_args a; do p <- srv1_pack s;
+              do u <- srv1_unpack (fst p) {| up_ts_len := len (lst 1 a); up_step := int 6 0 a; up_err := int 6 1 a |};
+              do e1 <- srv1_eq u (snd p); do e2 <- srv1_eq (snd p) u;
+              do q <- srv1_pack u;
+              Ok ((e1 && e2, fst q), u))
+  | 743 => ret srv1_fields (srv1_unpack (lst 0 a) (params_of (lst 1 a)))
+  | 744 => ret srv1_fields (do t <- tm_of_args a; srv1_from_tm t (params_of (0 :: lst 3 a)))
+  (* create_*_tm: a0 = [k; apid], a1 = tc header args, a2 = tc app data, a3 = timestamp,
+     a4 = step, a5 = fn code, a6 = fn data *)
+  | 745 => ret (fun r => [fst r] ++ vp_fields (s1_vp (snd r)))
+             (do t <- tc_of_args [lst 1 a; lst 2 a];
+              do st <- opt_pfe_of (lst 4 a);
+              do f <- opt_fn_of (lst 5 a) (lst 6 a);
+              do s <- srv1_create (int 0 0 a) (int 0 1 a) (tc_sph t) st f (lst 3 a);
+              srv1_pack s)
+  | 746 => ret (fun r => [fst r])
+             (do u <- srv1_unpack (lst 0 a) (params_of (lst 1 a)); srv1_pack u)
+  | 747 => ret (fun o => [of_opt_pfe o]) (do s <- srv1_of_args a; srv1_error_code s)
+  | 748 => ret (fun o => [of_opt_pfe o])
+             (do u <- srv1_unpack (lst 0 a) (params_of (lst 1 a)); srv1_error_code u)
+  (* == of two independently built reports: a0..a5 and a6..a11 *)
+  | 749 => ret (fun b => [[b2z b]])
+             (do x <- srv1_of_args a; do y <- srv1_of_args (skipn 6 a); srv1_eq x y)
+  (* ---- Spec side (independent oracle) ---- *)
+  | 750 => let h := sph_of_reqid_fields (lst 0 a) in [[0]; reqid_layout h; [reqid_u32 h]]
+  | 751 => [[0]; srv1_src_layout (sph_of_reqid_fields (lst 0 a)) (opt_pair (lst 1 a))
+                                  (opt_fail (lst 2 a) (lst 3 a))]
+  | 752 => [[0]; srv1_layout (int 0 0 a) (int 0 1 a) (int 0 2 a) (int 0 3 a) (int 0 4 a) (int 0 5 a)
+                             (lst 1 a) (sph_of_reqid_fields (lst 2 a)) (opt_pair (lst 3 a))
+                             (opt_fail (lst 4 a) (lst 5 a))]
+  | 753 => [[0]; reqid_layout (reqid_fields_of_u32 (int 0 0 a)); [reqid_u32 (reqid_fields_of_u32 (int 0 0 a))]]
+  | _ => [[1; 97]]
+  end.
